@@ -470,7 +470,20 @@ func elementSource(p *Prog, fc *FuncCtx, v ssa.Value, sr *sigRoles, depth int) (
 	case *ssa.Extract:
 		return elementSource(p, fc, x.Tuple, sr, depth+1)
 	case *ssa.UnOp:
+		if cv := capturedValue(x); cv != ssa.Value(x) {
+			if fv, ok := x.X.(*ssa.FreeVar); ok && fv.Parent().Parent() != nil {
+				return elementSource(p, fc.A.Ctx(fv.Parent().Parent()), cv, sr, depth+1)
+			}
+		}
 		return elementSource(p, fc, x.X, sr, depth+1)
+	case *ssa.Alloc:
+		// the spill slot of a value captured by a function literal (assigned once)
+		if sv := capturedSingleStore(x); sv != nil {
+			return elementSource(p, fc, sv, sr, depth+1)
+		}
+		if sv := wholeStore(x); sv != nil {
+			return elementSource(p, fc, sv, sr, depth+1)
+		}
 	case *ssa.IndexAddr:
 		return elementSource(p, fc, x.X, sr, depth+1)
 	case *ssa.Index:
@@ -992,6 +1005,10 @@ func checkSamePath(r *Report, m *spModel, sr *sigRoles) {
 			}
 			ts := types.TypeString(prm.Type(), nil)
 			if ts == "[]string" || ts == "time.Time" {
+				// inside a function literal of the caller the caller's parameter is a captured variable
+				if cv := capturedValue(arg); cv != arg {
+					arg = cv
+				}
 				pa, isParam := arg.(*ssa.Parameter)
 				if !isParam || types.TypeString(pa.Type(), nil) != ts {
 					ok = false
